@@ -752,7 +752,8 @@ func c17LongNames(u *vfUnit) {
 			}
 			if i%4 == 1 {
 				// ids the host knows by name, group and user databases disagreeing about the number (adm/sync, tty/...)
-				uid, gid = []int{1, 2, 3, 4, 5, 8, 65534}[u.Rng.Intn(7)], []int{4, 5, 6, 15, 20, 24, 42, 100, 65534}[u.Rng.Intn(9)]
+				uids := append([]int{1, 2, 3, 4, 5, 8, 65534}, c17AccountsWithOtherRealName()...)
+				uid, gid = uids[u.Rng.Intn(len(uids))], []int{4, 5, 6, 15, 20, 24, 42, 100, 65534}[u.Rng.Intn(9)]
 			}
 			os.Lchown(p, uid, gid)
 			syscall.Chmod(p, perm)
@@ -861,6 +862,27 @@ func c17LongNames(u *vfUnit) {
 
 // c17VInfo is a virtual directory entry: no Sys() value, or a real file's FileInfo wrapped;
 // the owner comes from FileInfoUidGid when hasOwner is set.
+// c17AccountsWithOtherRealName: uids of host accounts whose real-name (GECOS) field is not their login name, or is
+// empty while others are not (what a listing shows as the owner is the login name)
+func c17AccountsWithOtherRealName() []int {
+	b, err := os.ReadFile("/etc/passwd")
+	if err != nil {
+		return nil
+	}
+	var out []int
+	for _, line := range strings.Split(string(b), "\n") {
+		f := strings.Split(line, ":")
+		if len(f) < 5 {
+			continue
+		}
+		real := strings.SplitN(f[4], ",", 2)[0]
+		if uid, err := strconv.Atoi(f[2]); err == nil && uid > 0 && real != f[0] && len(out) < 6 {
+			out = append(out, uid)
+		}
+	}
+	return out
+}
+
 type c17VInfo struct {
 	name     string
 	size     int64
